@@ -57,10 +57,10 @@ def construct_kind(src: str) -> str:
     """Mechanism id: the most specific construct of the (small) witness."""
     if re.search(r"\b(nil|null)\b", src):
         return "nil-literal"
-    if re.search(r"\{%-?\s*raw", src):
-        return "raw"
     if re.search(r"(?<![\w.'\"])\d+[A-Za-z_]\w*", src):
         return "digit-leading-word"  # e.g. `3nil`: lexed as one word, parsed as a path whose root is not an identifier
+    if re.search(r"\{%-?\s*raw", src):
+        return "raw"
     if re.search(r"\(\s*[\w.\[\]'\"-]+\s*\.\.", src) and re.search(r"\b(and|or|not)\b|[<>=!]=?|contains", src):
         return "range-operand-in-logical-expression"
     for pat, name in (
@@ -116,6 +116,14 @@ def failure(src: str, datas: list[Any]):
     return ("held", any_ok, len(datas))
 
 
+def _reason(f) -> str:
+    """For a re-parse error: the parser's own message (first line, positions and quoted text dropped); otherwise nothing further."""
+    if f[0] != "reparse-error":
+        return ""
+    m = re.search(r"does not parse: (\w+): ([^\n]*)", f[1])
+    return re.sub(r"'[^']*'|\d+", "_", m.group(1) + ":" + m.group(2)) if m else ""
+
+
 def judge(ctx: core.Ctx, case: dict[str, Any]) -> None:
     src = case["source"]
     f = failure(src, case["datas"])
@@ -128,9 +136,15 @@ def judge(ctx: core.Ctx, case: dict[str, Any]) -> None:
         ctx.ok((src,), nontrivial=f[1])
         return
     fkind = f[0]
-    small = shrink.shrink_source(src, lambda s2: failure(s2, case["datas"])[0] == fkind)
+
+    def same_failure(g) -> bool:
+        # the same kind of failure *for the same reason*: a shrinker that only keeps the kind drifts to whatever else fails to re-parse
+        # (deleting the characters between `0` and `nil` manufactures the digit-leading word `0nil`)
+        return g[0] == fkind and _reason(g) == _reason(f)
+
+    small = shrink.shrink_source(src, lambda s2: same_failure(failure(s2, case["datas"])))
     f2 = failure(small, case["datas"])
-    if f2[0] != fkind:
+    if not same_failure(f2):
         small, f2 = src, f
     ctx.evaluations += 1
     ctx.violation(f"{fkind}:{case.get('kind') or construct_kind(small)}", f2[1] + f" [shrunk witness: {small!r:.200}]", {"shrunk": small, "detail": f2[2]})
